@@ -1,0 +1,38 @@
+//go:build verif
+
+package tbtc
+
+import "context"
+
+// Thin exported wrappers used by the /verif harness (property C23). No
+// behaviour of their own.
+
+// VerifC23WatchCoordinationWindows runs watchCoordinationWindows; the callback
+// receives the coordination block of the window passed to onWindowFn.
+func VerifC23WatchCoordinationWindows(
+	ctx context.Context,
+	watchBlocksFn func(ctx context.Context) <-chan uint64,
+	onWindow func(coordinationBlock uint64),
+) {
+	watchCoordinationWindows(
+		ctx,
+		watchBlocksFn,
+		func(window *coordinationWindow) {
+			onWindow(window.coordinationBlock)
+		},
+	)
+}
+
+// VerifC23WindowIndex returns coordinationWindow.index for the given block.
+func VerifC23WindowIndex(coordinationBlock uint64) uint64 {
+	return newCoordinationWindow(coordinationBlock).index()
+}
+
+// VerifC23WindowIsAfter returns coordinationWindow.isAfter; hasOther false
+// stands for the nil window.
+func VerifC23WindowIsAfter(block uint64, hasOther bool, other uint64) bool {
+	if !hasOther {
+		return newCoordinationWindow(block).isAfter(nil)
+	}
+	return newCoordinationWindow(block).isAfter(newCoordinationWindow(other))
+}
